@@ -28,7 +28,7 @@ def main(tier):
     chk.run("R-ALIASGUARD", W.aliasguard, cx.repo, floor=1)
     chk.run("R-WINDOW", WN.window, cx.cpp, floor=5)
     chk.run("R-NARROWARG", C.narrowarg, cx.cpp, floor=9)
-    chk.run("R-NARROWLIT", CR.narrowlit, cx.cpp, floor=10)
+    chk.run("R-NARROWLIT", CR.narrowlit, cx.cpp, skip=r"IsBcd|ConvertToBinary|^Read|UncheckedRead", floor=10)
     chk.run("R-LOOPCOVER", CR.loopcover, cx.cpp, methods=("ConvertToBcd",), floor=64)
     chk.run("R-CPPRANGE", CR.cpprange, cx.cpp, floor=2000)
     return chk.finish()
